@@ -44,6 +44,9 @@ func NewSparseConstInt16Vector(indices []int, values []int16, n int) SparseConst
   if len(indices) != len(values) {
     panic("invalid number of indices")
   }
+  // sort and filter copies, the arguments are left untouched
+  indices = append([]int{}, indices...)
+  values = append([]int16{}, values...)
   sort.Sort(sortIntConstInt16{indices, values})
   r := nilSparseConstInt16Vector(n)
   r.indices = indices[0:0]
